@@ -1421,6 +1421,13 @@ class PolarsModel(data_algebra.data_model.DataModel):
             res = pl.concat(split, how="horizontal")
         if (blocks_in.record_keys is not None) and (len(blocks_in.record_keys) > 0):
             res = res.sort(blocks_in.record_keys)
+        # the declared columns in the declared order (blocks come in data order, a level no row carries is all missing)
+        res = res.select(
+            [
+                pl.col(c) if c in res.columns else pl.lit(None).alias(c)
+                for c in blocks_in.row_columns
+            ]
+        )
         return res
 
     def rowrecs_to_blocks(
@@ -1487,6 +1494,7 @@ class PolarsModel(data_algebra.data_model.DataModel):
             res = res.sort(blocks_out.record_keys + blocks_out.control_table_keys)
         else:
             res = res.sort(blocks_out.control_table_keys)
+        res = res.select(blocks_out.block_columns)  # the declared column order
         return res
 
 
